@@ -87,8 +87,8 @@ where
 {
     let ((mut a_tx, mut a_rx), (mut b_tx, mut b_rx)) = duplex::<Msg>(cap);
     let st = [a_tx.st.clone(), b_tx.st.clone()];
-    let (ev_a, mut evr_a) = broadcast::channel::<Evt>(4096);
-    let (ev_b, mut evr_b) = broadcast::channel::<Evt>(4096);
+    let (ev_a, mut evr_a) = broadcast::channel::<Evt>(64);
+    let (ev_b, mut evr_b) = broadcast::channel::<Evt>(64);
     let [sa, sb] = stores;
     let [la, lb] = logs;
     let res_a: RefCell<Option<Result<LogSyncMetrics, LogSyncError>>> = RefCell::new(None);
